@@ -24,7 +24,7 @@ def build(root, assign, main_present, fmts, dirs=None):
     defaults = []
     for n in NAMES:
         if 'default' in assign[n]:
-            defaults.append((n, 'role:default', None, None))
+            defaults.append((n, 'role:default', None, ['system'] if n == 'alpha' else None))
     files = {}
     for n in NAMES:
         for l in assign[n]:
@@ -127,7 +127,15 @@ def run(run, binfo):
             # decisions on role subsets agree with the winning layer
             if want is not None:
                 role = want[5:]
-                if not e.enforce(n, {}, {'roles': [role]}) or e.enforce(n, {}, {'roles': ['other']}):
+                sysc = {'system_scope': 'all'} if n == 'alpha' else {}
+                if n == 'alpha' and 'default' in assign[n] and e.enforce(n, {}, {'roles': [role], 'project_id': 'p'}):
+                    run.violation('scope-from-default', 'alpha is registered for system scope only, yet a project token '
+                                  'passes (layers %r)' % sorted(assign[n]),
+                                  {'kind': 'failing-input', 'suite': 'spec-c09',
+                                   'input': {'assign': {k: sorted(v) for k, v in assign.items()},
+                                             'main_present': main_present, 'fmts': fmts, 'dirs_mode': mode},
+                                   'expected': False, 'observed': True})
+                if not e.enforce(n, {}, dict({'roles': [role]}, **sysc)) or e.enforce(n, {}, dict({'roles': ['other']}, **sysc)):
                     run.violation('layering-decision', 'decision of %s does not follow %s' % (n, want),
                                   {'kind': 'failing-input', 'suite': 'spec-c09',
                                    'input': {'assign': {k: sorted(v) for k, v in assign.items()},
@@ -187,7 +195,7 @@ def pick_table(run):
                        ('set_default', 'nova-policy.yaml'), ('set_default', 'policy.yaml.sample')]:
         for have_yaml, have_json, have_other in itertools.product([False, True], repeat=3):
             for fallback in (True, False):
-                for explicit in (None, 'explicit.yaml'):
+                for explicit in (None, 'explicit.yaml', 'policy.yaml'):
                     shutil.rmtree(root, ignore_errors=True)
                     os.makedirs(root)
                     for fn, have in (('policy.yaml', have_yaml), ('policy.json', have_json), ('other.yaml', have_other)):
